@@ -192,6 +192,8 @@ class Units:
                     ru = suffix_lookup(RESULT_UNIT, name)
                     if ru and not t['dest']['proj']:
                         changed |= self.set(t['dest']['l'], ru, 'result of ' + P.strip(name).split('::')[-1])
+                    if P.strip(name).endswith('Iterator::count') and t['args'] and 'Char' in t['args'][0].get('ty', '') and not t['dest']['proj']:
+                        changed |= self.set(t['dest']['l'], 'C', 'count() of characters')
                     if suffix_lookup(SAME_UNIT, name) and t['args'] and not t['dest']['proj']:
                         u0 = self.op_unit(t['args'][0])
                         if u0 and u0 != 'X':
